@@ -1,4 +1,4 @@
-"""C11 — static_integer / static_number.  Grid: tags x (digits, exponent) triples."""
+"""C11 — static_integer / static_number.  Grid: tags x (digits, exponent) triples; shifts: see shift_grid."""
 import random
 
 RT = {'nat': 'native_rounding_tag', 'nrst': 'nearest_rounding_tag', 'tpi': 'tie_to_pos_inf_rounding_tag', 'ninf': 'neg_inf_rounding_tag'}
@@ -64,10 +64,81 @@ def tus(tier, seed):
         body += '}\n'
         res.append(dict(name='C11_fromf' + ('' if i == 0 else '_%d' % (i // per)), src=body,
                         compiler='clang++' if (tier == 'thorough' and (i // per) % 2 == 1) else 'g++'))
+    res += shift_tus(tier, seed)
+    return res
+
+
+# ---------------------------------------------------------------------------------------------------------------
+# shifts: run-time counts (built-in int and static_integer counts, << >> <<= >>=) and cnl::constant counts
+OT4 = dict(OT, und='undefined_overflow_tag')
+SHIFT_DIGITS = [7, 8, 15, 16, 31, 32, 63, 64, 100]
+
+
+def shift_grid(tier, seed):
+    """(mode, tag, D, E, bare, CD) for run-time counts; (mode, tag, D, E, bare, K) for constant counts"""
+    rts, ots = list(RT), list(OT4)
+    # fixed corners: the repaired defect's instantiation, and one instantiation per checked tag at exact-fit digits
+    rt = [('nrst', 'sat', 31, 0, True, 8), ('nrst', 'thr', 31, -5, False, 31), ('ninf', 'trp', 63, 0, True, 40),
+          ('tpi', 'und', 7, -3, False, 8), ('nat', 'sat', 1, 0, True, 8), ('nrst', 'trp', 3, 2, False, 31)]
+    k = seed
+    digits = SHIFT_DIGITS if tier == 'quick' else SHIFT_DIGITS + [2, 5, 9, 17, 24, 30, 33, 47, 62, 65, 90, 120]
+    for d in digits:
+        for rep in range(1 if tier == 'quick' else 4):
+            c = (rts[(k // 2) % 4], ots[(k + rep) % 4], d, [0, -4, 3, -17][(k // 2) % 4], (k // 4 + rep) % 2 == 0, [8, 31, 40][k % 3])
+            k += 1
+            if c[4]:
+                c = c[:3] + (0,) + c[4:]
+            if c not in rt:
+                rt.append(c)
+    ct = []
+    for d in digits:
+        # bare static_integer: counts 0, 1, half, D - 1, D and the counts that land D + K on 31 / 32 / 63 / 64 digits
+        ks = {0, 1, d // 2, d - 1, d}
+        for t in (31, 32, 63, 64):
+            if 0 < t - d <= 64:
+                ks.add(t - d)
+        ks = sorted(x for x in ks if x >= 0)
+        if tier == 'quick':
+            # rotate: three of the counts per seed, always D - 1 (the count of the open class's witness)
+            rot = [x for x in ks if x != d - 1]
+            ks = sorted(set([d - 1] + [rot[(seed + i * 2) % len(rot)] for i in range(2)]))
+        for kk in ks:
+            ct.append((rts[k % 4], ots[k % 4], d, 0, True, kk))
+            k += 1
+        for kk in ([-3, 5] if tier == 'quick' else [-40, -3, 0, 1, 5, 33]):
+            ct.append((rts[k % 4], ots[k % 4], d, [0, -4, 3][k % 3], False, kk))
+            k += 1
+    return rt, ct
+
+
+def shift_tus(tier, seed):
+    rt, ct = shift_grid(tier, seed)
+    res = []
+
+    def tu(name, lines, idx, comp):
+        body = '#include "%s"\nint main(){ install(); Rng rng(seed_from_env()+%d);\n' % (__file__.replace('.py', '.h'), 4000 + idx)
+        body += ''.join(lines) + '}\n'
+        res.append(dict(name=name, src=body, compiler=comp))
+
+    per = 3
+    for i in range(0, len(rt), per):
+        lines = ['  shifts<%s, %s, %d, %d, %s, %d>(rng);\n' % (RT[r], OT4[o], d, e, 'true' if b else 'false', cd)
+                 for (r, o, d, e, b, cd) in rt[i:i + per]]
+        tu('C11_shift_%d' % (i // per), lines, i, 'clang++' if (tier == 'thorough' and (i // per) % 3 == 2) else 'g++')
+    per = 8
+    for i in range(0, len(ct), per):
+        lines = ['  cshift<%s, %s, %d, %d, %s, %d>(rng);\n' % (RT[r], OT4[o], d, e, 'true' if b else 'false', kk)
+                 for (r, o, d, e, b, kk) in ct[i:i + per]]
+        tu('C11_cshift_%d' % (i // per), lines, 500 + i, 'clang++' if (tier == 'thorough' and (i // per) % 3 == 1) else 'g++')
     return res
 
 
 RULE = ("per compiled (rounding tag, overflow tag, three (digits, exponent) formats): all values when digits <= 5, otherwise the boundary lattice of "
         "the declared range plus seeded random values, cross-multiplied for binary operators and two-step histories; construction from floating point: "
         "digit counts at, below and above the 24 / 53 / 64 digits the formats hold, the declared limits and the powers of two they round to with "
-        "+-1, +-2 ulp and fractional neighbours; non-trivial = divisor non-zero")
+        "+-1, +-2 ulp and fractional neighbours; non-trivial = divisor non-zero; shifts: digit counts 1, 3, 7, 8, 15, 16, 31, 32, 63, 64, 100 x "
+        "the four checked tags (saturated, throwing, trapping, undefined) x bare static_integer / static_number: operands +-(2^D - 1), "
+        "+-2^j for every j (x = -2^(D-k) with count k included), neighbours and seeded random values; run-time counts 0, 1, 2, 3, D/2, "
+        "D-2 .. D+2, storage width -2 .. +1, twice the width, 1000, INT_MAX and the counts that land |x| 2^k on 2^D, as built-in int, as "
+        "a static_integer count and in <<= / >>=; cnl::constant counts 0, 1, D/2, D-1, D and those landing D + K on 31 / 32 / 63 / 64 digits "
+        "(static_integer), of either sign (static_number), also as <<= / >>=; non-trivial = x and count non-zero")
